@@ -278,8 +278,12 @@ def r19_filter(cut):
 def r27_is_some_and(cut):
     """R27 (generic): `E.as_ref().is_some_and(F)` for a path E and a named function / closure F -> `(match &E { Some(__v) => F(__v), None => false })`
     (definition of Option::is_some_and); apply before R24 so that a local closure F is then inlined."""
-    return cut.sub(r"\b((?:self\.)?\w+(?:\.\w+)*)\.as_ref\(\)\.is_some_and\((\w+)\)", r"(match &\1 { Some(__v) => \2(__v), None => false })",
-                   "R27 Option::as_ref().is_some_and(f) -> match", expect=(0, 12))
+    n = cut.sub(r"\b((?:self\.)?\w+(?:\.\w+)*)\.as_ref\(\)\.is_some_and\((\w+)\)", r"(match &\1 { Some(__v) => \2(__v), None => false })",
+                "R27 Option::as_ref().is_some_and(f) -> match", expect=(0, 12))
+    # closure form: RECV.is_some_and(|v| E) for a receiver chain without nested parentheses and a block-free body
+    cut.sub(r"\b((?:self\.)?\w+(?:\.\w+(?:\([^()]*\))?)*)\.is_some_and\(\|(\w+)\|\s*([^(){};]+?)\)", r"(match \1 { Some(\2) => \3, None => false })",
+            "R27 Option::is_some_and(|v| e) -> match", expect=(0, 12))
+    return n
 
 
 def r24_inline_closures(cut):
